@@ -231,6 +231,13 @@ structure Offsets where
   ad : Nat
   deriving Repr, DecidableEq
 
+/-- the id field: 0 for multicast messages -/
+def hdrId (m : Msg) : Nat := if m.multicast then 0 else m.id
+
+/-- the flags field: TC is or-ed in when more follows and the message is a query -/
+def hdrFlags (m : Msg) (more : Bool) : Nat :=
+  if Gen.Outgoing.set_tc more (Gen.Outgoing.is_query m.flags) then Gen.Outgoing.flags_with_tc m.flags else m.flags
+
 /-- one iteration of the `while has_more_to_add` loop: the packet, the new offsets, whether
 progress was made and whether more remains -/
 def onePacket (m : Msg) (o : Offsets) : Except PyExc (Bytes √ó Offsets √ó Bool √ó Bool) := do
@@ -241,10 +248,8 @@ def onePacket (m : Msg) (o : Offsets) : Except PyExc (Bytes √ó Offsets √ó Bool √
   let madeProgress := !s4.body.isEmpty
   let o' : Offsets := ‚ü®o.q + qw, o.an + aw, o.au + auw, o.ad + adw‚ü©
   let more := Gen.Outgoing.has_more_to_add o'.q o'.an o'.au o'.ad m.questions.length m.answers.length m.authorities.length m.additionals.length
-  let flags := if Gen.Outgoing.set_tc more (Gen.Outgoing.is_query m.flags) then Gen.Outgoing.flags_with_tc m.flags else m.flags
-  let id := if m.multicast then 0 else m.id
-  if id < 65536 ‚àß flags < 65536 then
-    pure (be16 id ++ be16 flags ++ be16 qw ++ be16 aw ++ be16 auw ++ be16 adw ++ s4.body, o', madeProgress, more)
+  if hdrId m < 65536 ‚àß hdrFlags m more < 65536 then
+    pure (be16 (hdrId m) ++ be16 (hdrFlags m more) ++ be16 qw ++ be16 aw ++ be16 auw ++ be16 adw ++ s4.body, o', madeProgress, more)
   else .error .structError
 
 /-- the `while has_more_to_add` loop, with explicit fuel (total number of entries + 1 suffices) -/
